@@ -37,65 +37,17 @@ def gen(ctx):
     K.gen(ctx)
 
 
-# ------------------------------------------------------------------ Python mirror of the reference writer (checked in Coq per case)
-EXT_SMALL = {223, 233, 453, 955, 26085, 26412}
-EXT_CAP = {201, 937, 8551}
-EXT_ALNUM = {178, 8203, 8470, 128512}
-SYMBOL = set(ord(c) for c in "#$&*+-./:<=>?@^~\\")
-WS_CTRL_EXTRA = {133, 160, 8232}
-
-
-def iso_small(c): return 97 <= c <= 122 or c in EXT_SMALL
-def iso_alnum(c): return iso_small(c) or 65 <= c <= 90 or c in EXT_CAP or 48 <= c <= 57 or c == 95 or c in EXT_ALNUM
-
-
-def py_unquoted(s):
-    if not s:
-        return False
-    if iso_small(s[0]) and all(iso_alnum(c) for c in s[1:]):
-        return True
-    if all(c in SYMBOL for c in s) and s != [46] and s[:2] != [47, 42]:
-        return True
-    return s in ([91, 93], [123, 125], [33], [59])
-
-
-ESC = {39: [92, 39], 10: [92, 110], 13: [92, 114], 9: [92, 116], 11: [92, 118], 12: [92, 102], 8: [92, 98], 7: [92, 97], 92: [92, 92]}
-
-
-def py_atom_text(name):
-    s = [ord(c) for c in name]
-    if py_unquoted(s):
-        return s
-    out = [39]
-    for c in s:
-        if c in ESC: out += ESC[c]
-        elif c in (32, 34): out.append(c)
-        elif c < 32 or c == 127 or c in WS_CTRL_EXTRA: out += [92, 120] + [ord(h) for h in "%x" % c] + [92]
-        else: out.append(c)
-    return out + [39]
-
-
-def py_canonical(t):
-    k = t[0]
-    if k == "var": return [95, 71] + [ord(c) for c in str(t[1])]
-    if k == "int": return [ord(c) for c in str(t[1])]
-    if k == "atom": return py_atom_text(t[1])
-    if k == "cmp":
-        out = py_atom_text(t[1]) + [40]
-        for i, x in enumerate(t[2]):
-            if i: out.append(44)
-            out += py_canonical(x)
-        return out + [41]
-    raise ValueError(t)
-
-
 CROSS_PROG = K.RT_PROG + r"""
-c15_cross(T, Names, RefCodes, W, R) :-
+c15_cross(T, Names, W, R) :-
     write_term_to_chars(T, [quoted(true), ignore_ops(true), variable_names(Names)], C), c55_cs(C, W),
-    c55_cs(RC, RefCodes), append(RC, " .", RC1),
-    catch(( read_term_from_chars(RC1, T2, []) -> true ; T2 = '$read_failed' ), E, T2 = '$syntax_error'(E)),
+    append(C, " .", C1),
+    catch(( read_term_from_chars(C1, T2, []) -> true ; T2 = '$read_failed' ), E, T2 = '$syntax_error'(E)),
     (  c55_variant(T, T2) -> R = ok
     ;  catch(write_term_to_chars(T2, [quoted(true), ignore_ops(true)], C3), _, C3 = "?"), c55_cs(C3, R) ).
+c15_read(Codes, T, R) :-
+    c55_cs(RC, Codes), append(RC, " .", RC1),
+    catch(( read_term_from_chars(RC1, T2, []) -> true ; T2 = '$read_failed' ), E, T2 = '$syntax_error'(E)),
+    (  c55_variant(T, T2) -> R = ok ; R = bad ).
 """
 
 
@@ -108,11 +60,14 @@ def fragment_ok(t):
 
 
 def run_cross(ctx, res):
+    """(i) the reference reader reads the implementation's ignore_ops/quoted text W to T (evaluated in Coq);
+    (ii) the implementation reads the reference writer's text to T: W is compared with the reference text in Coq; where they are
+    equal the implementation's read-back of W is that check, where they differ the reference text is fetched from Coq and read."""
     rng = ctx.rng
     K.CURRENT_OPS = K.default_ops()
     atoms = K.PLAIN + K.TRICKY
     funcs = [(a, None) for a in K.PLAIN + ["-", "+", ",", "|", "[]", "{}", ".", "$VAR", ":-", "\\+", "=", "é", "a b", "", "A", "*", "1", "'", "\\"]]
-    n = ctx.scale(900, 30000)
+    n = ctx.scale(600, 30000)
     cases, seen = [], set()
     while len(cases) < n:
         t = K.gen_term(rng, rng.choice([1, 2, 3, 5, 8, 12]), atoms, funcs)
@@ -123,9 +78,7 @@ def run_cross(ctx, res):
     jobs = []
     PER_JOB = 150
     for j in range(0, len(cases), PER_JOB):
-        qs = []
-        for t in cases[j:j + PER_JOB]:
-            qs.append("c15_cross(%s, %s, %s, W, R)." % (K.pl_text(t), K._names([t]), K.pl_codes(py_canonical(t))))
+        qs = ["c15_cross(%s, %s, W, R)." % (K.pl_text(t), K._names([t])) for t in cases[j:j + PER_JOB]]
         jobs.append({"id": "x%d" % j, "consult": CROSS_PROG, "queries": qs, "timeout_ms": 60000, "fresh": j == 0})
     out = core.vrun_query(ctx.prop, jobs, tag="cross")
     bools, meta = [], []
@@ -138,38 +91,55 @@ def run_cross(ctx, res):
                 res["tie_breaks"].append({"kind": "harness", "what": "cross query gave no result",
                                           "detail": {"term": K.pl_text(t), "result": K.rec_problem(rec, i)}})
                 continue
-            ref = py_canonical(t)
             if r != ("atom", "ok"):
-                back = K.text(K.codes_of(r) or [])
-                res["failures"].append({"key": "cross:impl-reads-reference-text:" + K.abstract_shape(t, K.CURRENT_OPS)[:50],
-                                        "what": "the implementation does not read the reference writer's canonical text back to the term",
-                                        "input": "read_term_from_chars(\"%s .\", T2, [])" % K.text(ref), "impl": back, "spec": K.pl_text(t),
+                res["failures"].append({"key": "roundtrip:canonical:" + K.abstract_shape(t, K.CURRENT_OPS)[:50],
+                                        "what": "the implementation does not read its own ignore_ops/quoted text back to the term",
+                                        "input": "T = %s, write_term_to_chars(T, [quoted(true),ignore_ops(true)], Cs), read back" % K.pl_text(t),
+                                        "impl": {"written_text": K.text(wc), "read_back_as": K.text(K.codes_of(r) or [])}, "spec": "variant of T",
                                         "property_fails": True})
-            bools.append("check_cross %s %s %s" % (K.to_coq(t), K.nlist(ref), K.nlist(wc)))
-            meta.append((t, ref, wc))
+            ct = K.to_coq(t)
+            bools.append("check_cross %s %s" % (ct, K.nlist(wc)))
+            meta.append((t, wc))
     bad, errs = yield bools
     for _, e in errs:
         res["tie_breaks"].append({"kind": "coq-eval", "what": "cross shard failed", "detail": e})
     if bad:
-        shown = sorted(bad, key=lambda i: K.tsize(meta[i][0]))[:6]
-        parts = core.coq_eval_show(ctx.prop, IMPORTS, "[%s]" % "; ".join(
-            "(text_eq (write_canonical_ref %s) %s, opt_term_eqb (read_canonical_ref %s) %s)" % (K.to_coq(meta[i][0]), K.nlist(meta[i][1]),
-                                                                                              K.nlist(meta[i][2]), K.to_coq(meta[i][0])) for i in shown))
+        shown = sorted(bad, key=lambda i: K.tsize(meta[i][0]))[:8]
+        # which half failed, and the reference text
+        out_txt = core.coq_eval_show(ctx.prop, IMPORTS, "[%s]" % "; ".join(
+            "(opt_term_eqb (read_canonical_ref %s) %s, write_canonical_ref %s)" % (K.nlist(meta[i][1]), K.to_coq(meta[i][0]), K.to_coq(meta[i][0]))
+            for i in shown))
+        import re
+        parts = re.findall(r"\((true|false),\s*\[([0-9;\s]*)\]\)", out_txt)
+        reads = []
+        for i, pr in zip(shown, parts):
+            ref = [int(x) for x in pr[1].replace(";", " ").split()]
+            reads.append((i, pr[0] == "true", ref))
+        if len(reads) != len(shown):
+            res["tie_breaks"].append({"kind": "coq-eval", "what": "could not parse the reference texts", "detail": out_txt[:600]})
+        rq = [{"id": "rr", "consult": CROSS_PROG, "queries": ["c15_read(%s, %s, R)." % (K.pl_codes(ref), K.pl_text(meta[i][0])) for i, ok, ref in reads],
+               "timeout_ms": 20000, "fresh": True}]
+        rout = core.vrun_query(ctx.prop, rq, nproc=1, tag="crossread").get("rr") if reads else None
         seen_k = set()
-        for i in shown:
-            t, ref, wc = meta[i]
-            k = "cross:reference-reader:" + K.abstract_shape(t, K.CURRENT_OPS)[:50]
+        for qi, (i, ref_reader_ok, ref) in enumerate(reads):
+            t, wc = meta[i]
+            r = K.first_binding(rout, qi, "R")
+            impl_reads_ref = (r == ("atom", "ok"))
+            if ref_reader_ok and impl_reads_ref:
+                continue            # the two texts differ only cosmetically: both cross round trips hold
+            k = ("cross:reference-reader:" if not ref_reader_ok else "cross:impl-reads-reference-text:") + K.abstract_shape(t, K.CURRENT_OPS)[:50]
             if k in seen_k: continue
             seen_k.add(k)
-            res["failures"].append({"key": k, "what": "the reference reader does not read the implementation's ignore_ops/quoted text back to the term "
-                                                      "(or the Python mirror of the reference writer drifted: first component false)",
-                                    "input": "write_term_to_chars(%s, [quoted(true), ignore_ops(true)], Cs)" % K.pl_text(t),
-                                    "impl": K.text(wc), "spec": "reference text %r; (mirror_ok, reference_reader_ok) for the smallest failing cases: %s"
-                                                                % (K.text(ref), parts[:600]), "property_fails": True})
+            res["failures"].append({"key": k, "what": "cross round trip between the implementation and the proved reference pair fails",
+                                    "input": "T = %s" % K.pl_text(t),
+                                    "impl": {"ignore_ops_quoted_text": K.text(wc), "implementation_reads_reference_text": impl_reads_ref},
+                                    "spec": {"reference_text": K.text(ref), "reference_reader_reads_implementation_text": ref_reader_ok},
+                                    "property_fails": True})
     res["evaluations"] += len(bools)
     res["nontrivial"] += sum(1 for m in meta if m[0][0] == "cmp" or (m[0][0] == "atom" and not m[0][1].isalnum()))
-    res["distribution"]["cross_terms"] = {"total": len(meta), "compound": sum(1 for m in meta if m[0][0] == "cmp")}
-    res["samples"] += [{"term": K.pl_text(m[0]), "impl_canonical_text": K.text(m[2])} for m in meta[:: max(1, len(meta) // 3)][:3]]
+    res["distribution"]["cross_terms"] = {"total": len(meta), "compound": sum(1 for m in meta if m[0][0] == "cmp"),
+                                          "texts_differing_from_reference": len(bad)}
+    res["samples"] += [{"term": K.pl_text(m[0]), "impl_canonical_text": K.text(m[1])} for m in meta[:: max(1, len(meta) // 3)][:3]]
 
 
 # ------------------------------------------------------------------ operator notation: differential round trips
@@ -296,7 +266,8 @@ def run_userops(ctx, res):
                    [("cmp", n, [("atom", "a")]) for p, ty, n in decls if len(ty) == 2] + \
                    [("cmp", n, [("atom", "a"), ("atom", "b")]) for p, ty, n in decls if len(ty) == 3]
         K.CURRENT_OPS = ops
-        pool = K.dedupe_terms(K.op_term_pool(rng, ctx.scale(220, 600), pre, inf, operands, post))
+        pool = K.dedupe_terms(K.op_term_pool(rng, ctx.scale(400, 1200), pre, inf, operands, post))
+        rng.shuffle(pool)
         cases += [(t, g) for t in pool[:ctx.scale(420, 1500)]]
     total = 0
     for label, opts, mode in OPTSETS[:3]:
